@@ -142,6 +142,19 @@ theorem C11_call_reaches_matching_arm (s : Service) (o : Opts)
       exact Router.eq_of_nodup_map (·.ident) s.methods hnd y hy m hm hid
   rw [hfind]; rfl
 
+/-- **The generated `match` is C10's `call`.**  Matching the request path against the emitted
+arm literals fires an arm exactly when C10's abstract server (`NAME` + method identifiers) runs a
+handler, so C10's theorems speak about the code this generator emits. -/
+theorem C11_generated_match_is_router_call (s : Service) (o : Opts) (path : Bytes) :
+    (serverCall (serverArms s o) path).isSome = ((serverOf s o).call path).handlerRan.isSome := by
+  have hpred : ((fun a : ServerArm => path == a.literal) ∘ serverMethod s o) =
+      ((fun i : Bytes => path == Router.routePrefix (serviceNameConst s o) ++ i) ∘ (·.ident)) := by
+    funext m
+    simp only [Function.comp, (C11_service_name_is_prefix s o m).1]
+  unfold serverCall serverArms Router.Svc.call serverOf
+  simp only [List.find?_map, hpred]
+  cases s.methods.find? ((fun i : Bytes => path == Router.routePrefix (serviceNameConst s o) ++ i) ∘ (·.ident)) <;> rfl
+
 /-- Conversely, an arm fires only for a path some client method produces. -/
 theorem C11_arm_fires_only_for_client_paths (s : Service) (o : Opts) (path : Bytes) (a : ServerArm)
     (h : serverCall (serverArms s o) path = some a) :
